@@ -109,6 +109,7 @@ pub struct Exec<K: HKey> {
     pub idx: usize,
     pub progress_fd: i32,
     pub quarantine: PathBuf,
+    pub pending_note: Option<String>,
 }
 
 fn guarded<T>(f: impl FnOnce() -> T) -> Result<T, ()> {
@@ -117,7 +118,7 @@ fn guarded<T>(f: impl FnOnce() -> T) -> Result<T, ()> {
 
 impl<K: HKey> Exec<K> {
     pub fn new(root: PathBuf, log: PathBuf, quarantine: PathBuf) -> Self {
-        Exec { root, cfg: Cfg::default(), cas: None, ostats: None, tr: TraceReader::new(log), out: vec![], idx: 0, progress_fd: -1, quarantine }
+        Exec { root, cfg: Cfg::default(), cas: None, ostats: None, tr: TraceReader::new(log), out: vec![], idx: 0, progress_fd: -1, quarantine, pending_note: None }
     }
     fn entries(&self) -> String {
         let cas = self.cas.as_ref().unwrap();
@@ -204,7 +205,10 @@ impl<K: HKey> Exec<K> {
                 match guarded(|| cas.get_size(&key::<K>(t[1]))) { Ok(Ok(Some(n))) => format!("size:{n}"), Ok(Ok(None)) => "none".into(), Ok(Err(e)) => err_str(&e), Err(()) => "err:panic".into() } }
             "range" => { let cas = self.cas.as_ref().unwrap();
                 let (a, b): (u64, u64) = (t[2].parse().unwrap(), t[3].parse().unwrap());
-                match guarded(|| cas.get_range(&key::<K>(t[1]), a, b)) { Ok(Ok(Some(b))) => format!("bytes:{}", show_content(&b)), Ok(Ok(None)) => "none".into(), Ok(Err(e)) => err_str(&e), Err(()) => "err:panic".into() } }
+                let k0 = key::<K>(t[1]);
+                let (r, peak) = crate::codec::measure(|| guarded(|| cas.get_range(&k0, a, b)));
+                self.pending_note = Some(format!("A {} peak={}", self.idx, peak));
+                match r { Ok(Ok(Some(b))) => format!("bytes:{}", show_content(&b)), Ok(Ok(None)) => "none".into(), Ok(Err(e)) => err_str(&e), Err(()) => "err:panic".into() } }
             "reader" => { let cas = self.cas.as_ref().unwrap();
                 match guarded(|| cas.get_reader(&key::<K>(t[1])).map(|o| o.map(|mut r| { let mut v = vec![]; r.read_to_end(&mut v).unwrap(); v }))) {
                     Ok(Ok(Some(b))) => format!("bytes:{}", show_content(&b)), Ok(Ok(None)) => "none".into(), Ok(Err(e)) => err_str(&e), Err(()) => "err:panic".into() } }
@@ -234,6 +238,7 @@ impl<K: HKey> Exec<K> {
             _ => panic!("bad case line {l}"),
         };
         self.out.push(format!("R {} {} -> {}", self.idx, l, res));
+        if let Some(n) = self.pending_note.take() { self.out.push(n); }
         if self.progress_fd >= 0 {
             let s = format!("{} {}\n", self.idx, res);
             unsafe { libc::write(self.progress_fd, s.as_ptr().cast(), s.len()); }
